@@ -26,38 +26,44 @@ type RunResult struct {
 }
 
 type WorkerStats struct {
-	Check       string         `json:"check"`
-	Rule        string         `json:"rule"`
-	Level       string         `json:"level"`
-	Engine      string         `json:"engine"`
-	Runs        int            `json:"runs"`
-	Nontrivial  int            `json:"nontrivial"`
-	Scheds      map[string]int `json:"-"`
-	SchedList   []string       `json:"scheds"` // distinct schedule hashes of non-trivial runs
-	Steps       int            `json:"steps"`
-	SimTimeMS   int64          `json:"sim_time_ms"`
-	Faults      map[string]int `json:"faults"`
-	Probes      map[string]int `json:"probes"`
-	Samples     []string       `json:"samples"`
-	Known       map[string]int `json:"known"` // known-finding signature -> hits
-	Failed      bool           `json:"failed"`
-	Failure     *FailureRec    `json:"failure,omitempty"`
-	WallS       float64        `json:"wall_s"`
-	Digests     []string       `json:"digests,omitempty"`
-	Stuck       int            `json:"stuck"`
-	Bytes       int            `json:"bytes_delivered"`
+	Check      string         `json:"check"`
+	Rule       string         `json:"rule"`
+	Level      string         `json:"level"`
+	Engine     string         `json:"engine"`
+	Runs       int            `json:"runs"`
+	Nontrivial int            `json:"nontrivial"`
+	Scheds     map[string]int `json:"-"`
+	SchedList  []string       `json:"scheds"` // distinct schedule hashes of non-trivial runs
+	Steps      int            `json:"steps"`
+	SimTimeMS  int64          `json:"sim_time_ms"`
+	Faults     map[string]int `json:"faults"`
+	Probes     map[string]int `json:"probes"`
+	Samples    []string       `json:"samples"`
+	Known      map[string]int `json:"known"` // known-finding signature -> hits
+	Failed     bool           `json:"failed"`
+	Failure    *FailureRec    `json:"failure,omitempty"`
+	WallS      float64        `json:"wall_s"`
+	Digests    []string       `json:"digests,omitempty"`
+	Stuck      int            `json:"stuck"`
+	Bytes      int            `json:"bytes_delivered"`
+	EnumCount  int            `json:"enum_count"`
+	EnumParams map[string]int `json:"enum_params,omitempty"`
+	EnumRan    int            `json:"enum_ran"`
+	EnumRule   string         `json:"enum_rule,omitempty"`
 }
 
 type FailureRec struct {
-	Property  string     `json:"property"`
-	Class     string     `json:"class"`
-	Sig       string     `json:"sig"`
-	Msg       string     `json:"msg"`
+	Property  string      `json:"property"`
+	Class     string      `json:"class"`
+	Sig       string      `json:"sig"`
+	Msg       string      `json:"msg"`
 	All       []Violation `json:"all"`
-	Summary   string     `json:"summary"`
-	Decisions []Decision `json:"decisions"`
-	Digest    string     `json:"digest"`
-	Log       string     `json:"log,omitempty"`
+	Summary   string      `json:"summary"`
+	Decisions []Decision  `json:"decisions"`
+	Digest    string      `json:"digest"`
+	Log       string      `json:"log,omitempty"`
+	EnumIndex int         `json:"enum_index"`
+	IsEnum    bool        `json:"is_enum"`
 }
 
 func loadKnown() map[string]bool {
@@ -209,46 +215,39 @@ func TestWorker(t *testing.T) {
 			os.WriteFile(out, b, 0o644)
 		}
 	}()
-	iter := 0
-	rapid.Check(t, func(rt *rapid.T) {
-		c := def.Draw(rt)
-		res, w := runCase(t, c)
-		iter++
-		if iter%8 == 7 {
-			runtime.GC()
+	announce := os.Getenv("VERIF_ANNOUNCE")
+	account := func(c *Case, res *RunResult, w *World) {
+		st.Runs++
+		st.Steps += res.Steps
+		st.SimTimeMS += res.SimTime.Milliseconds()
+		if res.Nontrivial {
+			st.Nontrivial++
+			st.Scheds[res.Sched]++
 		}
-		if !st.Failed {
-			st.Runs++
-			st.Steps += res.Steps
-			st.SimTimeMS += res.SimTime.Milliseconds()
-			if res.Nontrivial {
-				st.Nontrivial++
-				st.Scheds[res.Sched]++
+		if w != nil {
+			for k, v := range w.Net.Faults {
+				st.Faults[k] += v
 			}
-			if w != nil {
-				for k, v := range w.Net.Faults {
-					st.Faults[k] += v
-				}
-				for k, v := range w.Probes {
-					st.Probes[k] += v
-				}
-				if w.Stuck {
-					st.Stuck++
-				}
-				st.Bytes += w.Net.BytesDelivered
-			}
-			for k, v := range c.DirectStats {
+			for k, v := range w.Probes {
 				st.Probes[k] += v
 			}
-			if len(st.Samples) < 4 && res.Nontrivial {
-				st.Samples = append(st.Samples, c.Summary)
+			if w.Stuck {
+				st.Stuck++
 			}
-			if wantDigests {
-				st.Digests = append(st.Digests, res.Digest)
-			}
+			st.Bytes += w.Net.BytesDelivered
 		}
+		for k, v := range c.DirectStats {
+			st.Probes[k] += v
+		}
+		if len(st.Samples) < 4 && res.Nontrivial {
+			st.Samples = append(st.Samples, c.Summary)
+		}
+		if wantDigests {
+			st.Digests = append(st.Digests, res.Digest)
+		}
+	}
+	judge := func(c *Case, res *RunResult, w *World) *FailureRec {
 		if res.Panic != "" && !strings.Contains(res.Panic, "deadlock") {
-			// a panic that escaped the bubble: harness trouble or a crash of the system under test
 			res.Violations = append(res.Violations, Violation{"panic", "panic", "panic escaped the simulated world: " + res.Panic})
 		}
 		var fresh []Violation
@@ -261,22 +260,88 @@ func TestWorker(t *testing.T) {
 			}
 			fresh = append(fresh, v)
 		}
-		if len(fresh) > 0 {
-			st.Failed = true
-			f := &FailureRec{Property: id, Class: fresh[0].Class, Sig: fresh[0].Sig, Msg: fresh[0].Msg, All: fresh, Summary: c.Summary, Digest: res.Digest}
-			if w != nil {
-				f.Decisions = w.Decisions
-				if len(f.Decisions) > 400 {
-					f.Decisions = f.Decisions[:400]
-				}
-				lg := w.LogBuf.String()
-				if len(lg) > 4000 {
-					lg = lg[len(lg)-4000:]
-				}
-				f.Log = lg
+		if len(fresh) == 0 {
+			return nil
+		}
+		f := &FailureRec{Property: id, Class: fresh[0].Class, Sig: fresh[0].Sig, Msg: fresh[0].Msg, All: fresh, Summary: c.Summary, Digest: res.Digest}
+		if w != nil {
+			f.Decisions = w.Decisions
+			if len(f.Decisions) > 400 {
+				f.Decisions = f.Decisions[:400]
 			}
+			lg := w.LogBuf.String()
+			if len(lg) > 4000 {
+				lg = lg[len(lg)-4000:]
+			}
+			f.Log = lg
+		}
+		return f
+	}
+	if em := os.Getenv("VERIF_ENUM"); em != "" {
+		if def.Enum == nil {
+			t.Fatalf("check %s has no enumeration", id)
+		}
+		st.EnumRule = def.EnumRule
+		params := def.Enum.Params(func(c *Case) *World {
+			_, w := runCase(t, c)
+			return w
+		})
+		st.EnumParams = params
+		st.EnumCount = def.Enum.Count(params)
+		if em == "count" {
+			return
+		}
+		// "shard:nshards:stride" or "index:i"
+		var lo, step, stride int
+		if n, _ := fmt.Sscanf(em, "index:%d", &lo); n == 1 {
+			step = st.EnumCount + 1
+			stride = 1
+		} else {
+			var shard, nsh int
+			fmt.Sscanf(em, "%d:%d:%d", &shard, &nsh, &stride)
+			lo = shard * stride
+			step = nsh * stride
+		}
+		for i := lo; i < st.EnumCount; i += step {
+			if announce != "" {
+				os.WriteFile(announce, []byte(fmt.Sprintf("enum %d", i)), 0o644)
+			}
+			c := def.Enum.Case(params, i)
+			res, w := runCase(t, c)
+			if i%8 == 7 {
+				runtime.GC()
+			}
+			account(c, res, w)
+			st.EnumRan++
+			if f := judge(c, res, w); f != nil {
+				f.EnumIndex = i
+				f.IsEnum = true
+				st.Failed = true
+				st.Failure = f
+				t.Errorf("VIOLATION %s enum=%d class=%s: %s", id, i, f.Class, f.Msg)
+				return
+			}
+		}
+		return
+	}
+	iter := 0
+	rapid.Check(t, func(rt *rapid.T) {
+		if announce != "" && !st.Failed {
+			os.WriteFile(announce, []byte(fmt.Sprintf("rapid %d", iter)), 0o644)
+		}
+		c := def.Draw(rt)
+		res, w := runCase(t, c)
+		iter++
+		if iter%8 == 7 {
+			runtime.GC()
+		}
+		if !st.Failed {
+			account(c, res, w)
+		}
+		if f := judge(c, res, w); f != nil {
+			st.Failed = true
 			st.Failure = f
-			rt.Fatalf("VIOLATION %s class=%s: %s", id, fresh[0].Class, fresh[0].Msg)
+			rt.Fatalf("VIOLATION %s class=%s: %s", id, f.Class, f.Msg)
 		}
 	})
 }
